@@ -45,7 +45,9 @@ class CHECK(ThresholdCheck):
     trusted = ("as C04; additionally np.around(.,15) / floating-point ties in the arg-max are outside the model: the "
                "comparison is on objective VALUES (tolerance 1e-12), any arg-max within tolerance is accepted",
                "scipy.optimize.linprog (HiGHS) is only a cross-check of the Fraction envelope oracle")
-    assumptions = ("every group contains both labels", "scores are finite", "grid_size >= 1")
+    assumptions = ("every group contains both labels", "scores are finite", "grid_size >= 1",
+                   "np.around(objective, 15) (ThresholdFitSrc.aroundDecimals) is the identity on the exact model "
+                   "(Threshold.aroundModel_eq): optimality is proved of the exact arg-max")
 
     def exhaustive(self, tier):
         cyc = tc.cfg_cycle()
